@@ -26,7 +26,7 @@ type Event struct {
 // parkable lists the yield points that are outside every library lock.
 var parkable = map[string]bool{
 	"reg.send": true, "req.wait": true, "req.result": true, "req.err": true, "req.timeout": true,
-	"life.rl.err": true, "life.rl.closing": true, "life.rl.signalled": true,
+	"life.rl.start": true, "life.rl.err": true, "life.rl.closing": true, "life.rl.signalled": true,
 }
 
 type Ctl struct {
